@@ -9,6 +9,7 @@ import ODataVerif.Model.Parser
 import ODataVerif.Spec.Builtins
 import ODataVerif.Model.Typing
 import ODataVerif.Spec.Types
+import ODataVerif.Spec.TypesStrict
 import ODataVerif.Model.Visitor
 import ODataVerif.Model.Rewrite
 import ODataVerif.Spec.Traversal
@@ -236,6 +237,7 @@ def handle (args : List String) : String :=
        | some kind, some v => encOutcome encPyValue (pyVal kind v)
        | _, _ => "bad-arg")
   | ["infer", w] => withExpr w (fun e => match inferType e with | some t => t.className | none => "None")
+  | ["welltyped", w] => withExpr w (fun e => if Spec.wellTypedFilter gamma e then "True" else "False")
   | ["typeof", w] => withExpr w (fun e => encOTy (Spec.typeOf gamma e))
   | ["typecheck", w, allowed] =>
       withExpr w (fun e => encOutcome (fun _ => "unit") (typecheck e (parseTys allowed) "field".toList))
